@@ -522,7 +522,8 @@ impl Writer for UperWriter {
         let present = C::DEFAULT_VALUE.ne(value);
         self.write_bit_field_entry(true, present)?;
         if present {
-            self.scope_stashed(|w| T::write_value(w, value))
+            // like an OPTIONAL component: as an extension addition it is an open type
+            self.with_buffer(|w| w.scope_stashed(|w| T::write_value(w, value)))
         } else {
             Ok(())
         }
@@ -1187,7 +1188,8 @@ impl<B: ScopedBitRead> Reader for UperReader<B> {
 
         // unwrap: as opt-field this must and will return some value
         if self.read_bit_field_entry(true)?.unwrap() {
-            self.scope_stashed(T::read_value)
+            // like an OPTIONAL component: as an extension addition it is an open type
+            self.with_buffer(|r| r.scope_stashed(T::read_value))
         } else {
             Ok(C::DEFAULT_VALUE.to_owned())
         }
